@@ -87,6 +87,7 @@ func m1(ctx *core.Ctx) {
 	runs = append(runs,
 		run{"dev:imports_in_map_order", "CONSTANTS\n Dev = {\"imports_in_map_order\"}\n MaxFiles = 2\n Rich = 2\n", "Deterministic"},
 		run{"dev:phnames_in_map_order", "CONSTANTS\n Dev = {\"phnames_in_map_order\"}\n MaxFiles = 2\n Rich = 2\n", "Deterministic"},
+		run{"dev:tie_broken_by_map_order", "CONSTANTS\n Dev = {\"tie_broken_by_map_order\"}\n MaxFiles = 2\n Rich = 2\n", "Deterministic"},
 		run{"dev:order_leaks", "CONSTANTS\n Dev = {\"order_leaks\"}\n MaxFiles = 2\n Rich = 2\n", "OrderInsensitive"})
 	self := map[string]interface{}{}
 	var mu sync.Mutex
@@ -228,6 +229,8 @@ func buildCases(ctx *core.Ctx, shapes []Shape) []*Case {
 		}
 	}
 	cases = append(cases, MapLitErrorCase("go-maplit-2err"))
+	cases = append(cases, TieCases()...)
+	cases = append(cases, SharedNamespaceCases()...)
 	return cases
 }
 
@@ -334,6 +337,9 @@ func exploreCase(ctx *core.Ctx, c *Case, st *exploreState, repsID, repsOther int
 		reps := repsOther
 		if pi == 0 {
 			reps = repsID
+			if c.Reps > reps {
+				reps = c.Reps
+			}
 		}
 		var ref Obs
 		for rep := 0; rep < reps; rep++ {
@@ -535,7 +541,11 @@ func ChildMain() {
 				}
 				for _, p := range perms {
 					key := OrderKey(p)
-					for rep := 0; rep < reps; rep++ {
+					nrep := reps
+					if c.Origin == "tlc" && os.Getenv("VERIF_C13_LEAN") != "" {
+						nrep = 1 // quick tier: the enumerated family once per order and process
+					}
+					for rep := 0; rep < nrep; rep++ {
 						o := Observe(c, p, cat)
 						n++
 						for _, comp := range Components {
@@ -599,6 +609,9 @@ func children(ctx *core.Ctx, cases []*Case, st *exploreState) {
 			cmd.Env = append(os.Environ(), "VERIF_C13_CHILD="+path, fmt.Sprintf("VERIF_C13_REPS=%d", ctx.Pick(2, 6)))
 			// the three processes have three compile histories: as the parent; insertion orders
 			// visited in reverse; without the bundles the parent compiled before a case
+			if !ctx.Thorough() {
+				cmd.Env = append(cmd.Env, "VERIF_C13_LEAN=1")
+			}
 			if i == 1 {
 				cmd.Env = append(cmd.Env, "VERIF_C13_REVERSE=1")
 			}
